@@ -185,7 +185,8 @@ class VectorizedOperatorGraph(DiGraph):
                         op_vars[var_key]["value"] = value
                         op_vars[var_key]["vtype"] = "input"
                     else:
-                        op_vars[var_key]["value"] = value if type(value) is list else [value]
+                        # a list-valued default is the template's own object: copy it, append_values extends this list
+                        op_vars[var_key]["value"] = list(value) if type(value) is list else [value]
                     _dtype_follows_value(op_vars[var_key], value)
 
             self.add_edges_from(op_graph.edges)
